@@ -144,6 +144,22 @@ CLAIMS = {
          "definition and first use.",
     technique="dominance / must-pass-through at entries, argument-flow checks on the late re-parse, statement order on the CFG",
     ref="DESIGN.md 3/C17"),
+ "C15": dict(
+    text="Static tables-and-shapes check of the JSON-Schema translator (not the value-level strictness): every validation "
+         "keyword of the supported fragment is translated and CONSTRAINTS_MAP maps it to a constraint that implies its "
+         "meaning and that Rule validates; get_constraints applies the table to the keyword's value (R15a); TYPE_MAP "
+         "targets have the keyword's JSON type / format (R15b); a local that shadows a builtin is never called when it "
+         "may hold a .get() result, and nullable .get() results are not called / dereferenced / iterated unguarded "
+         "(R15c, R15f); the translator recurses only on strict components of its schema argument, never through $ref "
+         "resolution, and no call cycle passes the schema on unchanged (R15d); every condition that triggers the name "
+         "sanitiser (base-class attributes, names already used, the loop's own un-sanitised keys) is handed to it, "
+         "fields and annotations share the sanitised key and the schema key is kept as alias (R15e).",
+    note="Undecided: that every value the built type returns validates against the source schema (needs an independent "
+         "validator on generated schemas and instances); keyword combinations Rule.annotate rejects (e.g. maximum "
+         "together with exclusiveMaximum, a zero max length) - observed, not derivable by these rules.",
+    technique="constant folding of the keyword tables + implication table, nullable-provenance lint with dominating "
+              "guard facts, call-graph descent check, trigger/sanitiser argument agreement",
+    ref="DESIGN.md 3/C15"),
 }
 
 NOT_APPLICABLE = {
